@@ -627,9 +627,7 @@ func (d *decoderState) ReadToken() (Token, error) {
 			return Token{}, wrapSyntacticError(d, err, pos, +1)
 		}
 		d.Names.push()
-		if !d.Flags.Get(jsonflags.AllowDuplicateNames) {
-			d.Namespaces.push()
-		}
+		d.Namespaces.push()               // always, so that it stays aligned with Names should AllowDuplicateNames change
 		d.Flags.Clear(jsonflags.TagFlags) // tags only apply to current depth
 		pos += 1
 		d.prevStart, d.prevEnd = pos, pos
@@ -640,9 +638,7 @@ func (d *decoderState) ReadToken() (Token, error) {
 			return Token{}, wrapSyntacticError(d, err, pos, +1)
 		}
 		d.Names.pop()
-		if !d.Flags.Get(jsonflags.AllowDuplicateNames) {
-			d.Namespaces.pop()
-		}
+		d.Namespaces.pop() // always, so that it stays aligned with Names should AllowDuplicateNames change
 		pos += 1
 		d.prevStart, d.prevEnd = pos, pos
 		return EndObject, nil
